@@ -20,6 +20,12 @@ extra.update({"C20-9": ["C11", "C07"], "C13-9": ["C15"], "C16-9": ["C08", "C17"]
               "C12-10": ["C07"], "C07-9": ["C12", "C13"], "C03-9": ["C09", "C08"], "C04-9": ["C09"], "C09-10": ["C03", "C08"], "C03-10": ["C05", "C10"],
               "C05-9": ["C13"], "C10-9": ["C05"], "C10-10": ["C16"], "C19-10": ["C10", "C16"], "C01-10": ["C08"], "C02-10": ["C01"], "C18-9": ["C08"],
               "C06-9": ["C11"], "C01-9": ["C11"], "C02-9": ["C11"], "C04-10": ["C11"], "C12-9": ["C11"], "C09-9": ["C11"], "C14-9": ["C11"]})
+# round 6
+extra.update({"C03-11": ["C10", "C06"], "C03-12": ["C06"], "C06-11": ["C10", "C03"], "C06-12": ["C07"], "C07-11": ["C12"], "C07-12": ["C20", "C06"],
+              "C08-11": ["C18"], "C08-12": ["C01"], "C09-11": ["C05"], "C10-11": ["C03", "C06"], "C10-12": ["C11"], "C11-11": ["C19"], "C11-12": ["C05"],
+              "C12-11": ["C07"], "C13-12": ["C05"], "C14-11": ["C02"], "C15-11": ["C07"], "C15-12": ["C13"], "C16-11": ["C17"], "C16-12": ["C10"],
+              "C17-11": ["C06"], "C17-12": ["C09"], "C18-11": ["C08"], "C18-12": ["C11"], "C19-12": ["C17"], "C20-11": ["C06"], "C20-12": ["C15"],
+              "C01-11": ["C02"], "C02-11": ["C15"], "C02-12": ["C05"], "C04-11": ["C09"], "C04-12": ["C09"], "C05-11": ["C13"], "C05-12": ["C02"]})
 only = sys.argv[1:]
 rows = []
 for d in sorted(glob.glob(V + "/seeded/C*-*")):
